@@ -15,7 +15,7 @@ echo "--- demo WITH change:"; (cd "$PKG" && timeout 600 $G test -vet=off -count=
 rm -f "$PKG"/$(ls SEED | grep _test.go | head -1)
 for f in SEED/*_test.go; do rm -f "$PKG/$(basename $f)"; done
 echo "--- suite WITH change:"
-timeout 900 $G test -vet=off -count=1 -json ./... 2>/dev/null | python3 -c "
+timeout 900 $G test -vet=off -count=1 -json $($G list ./... | grep -v /SEED) 2>/dev/null | python3 -c "
 import sys,json
 p=f=0;fails=[]
 for l in sys.stdin:
